@@ -452,3 +452,87 @@ class SystemInfoProbeStep:
                 and implies(routable, len(_trace) >= 1 and _trace[0] == ("get_chip_info", x, y))
                 and implies(routable and g_no_answer, len(_trace) == 1)
                 and implies(routable and not g_no_answer, len(_trace) == 2 and _trace[1] == ("held_for", (x, y), 3)))
+
+
+# ---- the extent of the machine worked out from the P2P table (get_system_info, discover_connections) ---------------------------------
+from pyvc.values import TMap   # noqa: E402,F401
+from pyvc.speclib import forall_int, exists_int   # noqa: E402,F401
+P2P = TMap(TTuple(TInt(0, 255), TInt(0, 255)), TInt(0, 7))
+
+
+def _p2p(E, obj, args, kwargs, st, node):
+    s = st.copy()
+    s.trace = ListV(s.trace.items + (("get_p2p_routing_table",) + tuple(args),))
+    return [(s, st.env["g_table"], None)]
+
+
+def _new_si(E, args, kwargs, st, node):
+    return [(st, ObjV("SystemInfo", {"width": args[0], "height": args[1]}))]
+
+
+@contract("rig/machine_control/machine_controller.py::MachineController.get_system_info@seq:0:3")
+class SystemInfoExtent:
+    """the extent of the machine: width and height are one more than the largest x and the largest y - each on its own - of the
+    chips the P2P table has a route to (a machine whose far corner is dead is still as wide as its widest row and as tall as
+    its tallest column)"""
+    properties = ("C14",)
+    params = dict(self=TRec("MachineController"), x=TInt(0, 255), y=TInt(0, 255), g_table=P2P)
+    fragment_result = ("max_x", "max_y")
+    fragment_head = "p2p_tables = ..."
+    externals = {"MachineController.get_p2p_routing_table": _p2p, "class:SystemInfo": _new_si}
+    raises = {"ValueError": None}
+    options = {"int_class": "rig/machine_control/consts.py::P2PTableEntry"}
+    assumptions = ["get_p2p_routing_table (its own contract) returns the ghost table; SystemInfo(width, height) is the record of its arguments"]
+
+    def native(x):
+        raise __import__("pyvc.replay", fromlist=["OutsideHarness"]).OutsideHarness()
+
+    def raises_ValueError(g_table):
+        return not exists_int(lambda a, b: (a, b) in g_table and g_table[(a, b)] != 6)
+
+    def ensures_width_and_height_from_the_routable_chips(g_table, result):
+        w, h = result[0] + 1, result[1] + 1
+        return (forall_int(lambda a, b: implies((a, b) in g_table and g_table[(a, b)] != 6, a < w and b < h))
+                and exists_int(lambda a, b: (a, b) in g_table and g_table[(a, b)] != 6 and a == w - 1)
+                and exists_int(lambda a, b: (a, b) in g_table and g_table[(a, b)] != 6 and b == h - 1))
+
+
+@contract("rig/machine_control/machine_controller.py::MachineController.get_system_info@seq:3:1")
+class SystemInfoExtentUsed:
+    """... and the probe result is created with exactly that width and height"""
+    properties = ("C14",)
+    params = dict(max_x=TInt(0, 255), max_y=TInt(0, 255))
+    fragment_result = ("sys_info",)
+    fragment_head = "sys_info = ..."
+    externals = {"class:SystemInfo": _new_si}
+
+    def native(max_x):
+        raise __import__("pyvc.replay", fromlist=["OutsideHarness"]).OutsideHarness()
+
+    def ensures_one_more_than_the_largest_coordinates(max_x, max_y, result):
+        return result[0].width == max_x + 1 and result[0].height == max_y + 1
+
+
+@contract("rig/machine_control/machine_controller.py::MachineController.discover_connections@seq:0:3")
+class DiscoverExtent:
+    """the size the controller works with (it decides which board a chip belongs to): one more than the largest x and the
+    largest y - each on its own - of the chips the P2P table has a route to"""
+    properties = ("C18", "C14")
+    params = dict(self=TRec("MachineController", _width=TInt(), _height=TInt()), x=TInt(0, 255), y=TInt(0, 255), g_table=P2P)
+    fragment_result = ("self",)
+    fragment_head = "working_chips = ..."
+    externals = {"MachineController.get_p2p_routing_table": _p2p}
+    raises = {"ValueError": None}
+    options = {"int_class": "rig/machine_control/consts.py::P2PTableEntry"}
+
+    def native(x):
+        raise __import__("pyvc.replay", fromlist=["OutsideHarness"]).OutsideHarness()
+
+    def raises_ValueError(g_table):
+        return not exists_int(lambda a, b: (a, b) in g_table and g_table[(a, b)] != 6)
+
+    def ensures_width_and_height_from_the_routable_chips(g_table, result):
+        w, h = result[0]._width, result[0]._height
+        return (forall_int(lambda a, b: implies((a, b) in g_table and g_table[(a, b)] != 6, a < w and b < h))
+                and exists_int(lambda a, b: (a, b) in g_table and g_table[(a, b)] != 6 and a == w - 1)
+                and exists_int(lambda a, b: (a, b) in g_table and g_table[(a, b)] != 6 and b == h - 1))
